@@ -3,7 +3,9 @@ import MxV.Model.Parser
 /-! # C09 — any schema-valid file is read without loss; nothing is silently dropped
 Model side, for **every** attribute of every input: the attribute ladder either raises or stores the
 attribute under its (hyphenated) name with one of the three readings of its text — it never returns
-normally without it (`attr_not_silently_dropped`). Since the repair `fix: the parser sets XML
+normally without it (`attr_not_silently_dropped`), and the attributes of one element do not disturb one
+another: if the parser gets through the whole list, all of them are in the store (`all_attrs_kept`,
+from the frame law `C04.setAttr_frame`). Since the repair `fix: the parser sets XML
 attributes through the attribute table…` this covers names that collide with Python-side properties
 (`name`, `content`, `level`, `xsd_check`, `_*`). Children are attached through the matcher, which
 either raises or holds the child (C06). Element text: `C08.ladder_result_is_valid`.
@@ -64,6 +66,104 @@ theorem attr_not_silently_dropped (validate : Nat → PyVal → Res) (t : Tbl) (
     | valueError => exact int_rung validate t s s' key v o hf hz h
     | wrongAttribute => cases h
     | keyExists => cases h
+
+/-! ## the whole attribute list of an element
+`parseAttrs` is the fold of the per-attribute step (`pattr` in Driver.lean, which the parsing harness
+issues once per XML attribute in document order, stopping at the first error, exactly as
+`_et_xml_to_music_xml` does). -/
+
+/-- whatever rung succeeds, the resulting store is the result of one `setAttr` call -/
+theorem ladder_is_a_set (set : PyVal → Except AErr Store) (o : Oracle) (v : String) (s' : Store)
+    (h : attrValue set o v = .ok s') : ∃ pv, set pv = .ok s' := by
+  have hF : ∀ s', attrFloat set o = .ok s' → ∃ pv, set pv = .ok s' := by
+    intro s' h; unfold attrFloat at h
+    cases hof : o.asFloat with
+    | none => simp [hof] at h
+    | some f => simp only [hof] at h; exact ⟨f, h⟩
+  have hI : ∀ s', attrInt set o = .ok s' → ∃ pv, set pv = .ok s' := by
+    intro s' h; unfold attrInt at h
+    cases hoz : o.asInt with
+    | none => simp only [hoz] at h; exact hF _ h
+    | some z =>
+      simp only [hoz] at h
+      cases hs : set z with
+      | ok s2 => simp only [hs] at h; cases h; exact ⟨z, hs⟩
+      | error e =>
+        simp only [hs] at h
+        cases e with
+        | valueError => exact hF _ h
+        | wrongAttribute => cases h
+        | typeError => cases h
+        | keyExists => cases h
+  unfold attrValue at h
+  cases hs : set (.str v) with
+  | ok s1 => simp only [hs] at h; cases h; exact ⟨_, hs⟩
+  | error e =>
+    simp only [hs] at h
+    cases e with
+    | typeError => exact hI _ h
+    | valueError => exact hI _ h
+    | wrongAttribute => cases h
+    | keyExists => cases h
+
+/-- one XML attribute as the parser sees it: name, text, and what `int()` / `float()` make of the text -/
+structure XAttr where
+  key : String
+  text : String
+  o : Oracle
+
+/-- `for k, v in node.attrib.items(): …` — the first attribute that raises aborts the parse -/
+def parseAttrs (validate : Nat → PyVal → Res) (t : Tbl) : Store → List XAttr → Except AErr Store
+  | s, [] => .ok s
+  | s, a :: r =>
+    match attrValue (fun pv => setAttr validate t s a.key pv) a.o a.text with
+    | .ok s1 => parseAttrs validate t s1 r
+    | .error e => .error e
+
+theorem parseAttrs_frame (validate : Nat → PyVal → Res) (t : Tbl) (as : List XAttr) (s s' : Store) (k : String)
+    (hk : ∀ a ∈ as, normKey a.key ≠ k) (h : parseAttrs validate t s as = .ok s') : storeGet s' k = storeGet s k := by
+  induction as generalizing s with
+  | nil => simp only [parseAttrs] at h; cases h; rfl
+  | cons a r ih =>
+    simp only [parseAttrs] at h
+    cases h1 : attrValue (fun pv => setAttr validate t s a.key pv) a.o a.text with
+    | error e => simp only [h1] at h; cases h
+    | ok s1 =>
+      simp only [h1] at h
+      obtain ⟨pv, hpv⟩ := ladder_is_a_set _ _ _ _ h1
+      rw [ih s1 (fun b hb => hk b (List.mem_cons_of_mem _ hb)) h]
+      exact C04.setAttr_frame validate t s s1 a.key k pv hpv (fun e => hk a (List.mem_cons_self) e.symm)
+
+/-- nothing is dropped from a whole attribute list: if the parser gets through the attributes of an
+element (an XML parser guarantees their names are distinct), every one of them is in the final
+store — the later ones do not disturb the earlier ones -/
+theorem all_attrs_kept (validate : Nat → PyVal → Res) (t : Tbl) (as : List XAttr) (s s' : Store)
+    (hd : (as.map fun a => normKey a.key).Nodup)
+    (hf : ∀ a ∈ as, ∀ f, a.o.asFloat = some f → f ≠ .none) (hz : ∀ a ∈ as, ∀ z, a.o.asInt = some z → z ≠ .none)
+    (h : parseAttrs validate t s as = .ok s') : ∀ a ∈ as, Kept a.o a.key a.text s' := by
+  induction as generalizing s with
+  | nil => intro a ha; cases ha
+  | cons a r ih =>
+    simp only [parseAttrs] at h
+    cases h1 : attrValue (fun pv => setAttr validate t s a.key pv) a.o a.text with
+    | error e => simp only [h1] at h; cases h
+    | ok s1 =>
+      simp only [h1] at h
+      rw [List.map_cons, List.nodup_cons] at hd
+      intro b hb
+      cases hb with
+      | head =>
+        obtain ⟨pv, hget, hwhich⟩ := attr_not_silently_dropped validate t s s1 a.key a.text a.o
+          (hf a List.mem_cons_self) (hz a List.mem_cons_self) h1
+        refine ⟨pv, ?_, hwhich⟩
+        rw [parseAttrs_frame validate t r s1 s' (normKey a.key) ?_ h]; exact hget
+        intro c hc e
+        exact hd.1 (List.mem_map.mpr ⟨c, hc, e⟩)
+      | tail _ hb' =>
+        exact ih s1 hd.2 (fun c hc => hf c (List.mem_cons_of_mem _ hc)) (fun c hc => hz c (List.mem_cons_of_mem _ hc)) h b hb'
 end C09
 
 #print axioms C09.attr_not_silently_dropped
+#print axioms C09.ladder_is_a_set
+#print axioms C09.parseAttrs_frame
+#print axioms C09.all_attrs_kept
